@@ -3,6 +3,7 @@ package checks
 import (
 	"bytes"
 	"fmt"
+	"github.com/atombender/go-jsonschema/pkg/generator"
 	"os"
 	"path/filepath"
 	"sort"
@@ -316,6 +317,25 @@ func init() {
 					nc.Caps = core.Pick(c.R, [][]string{{"ID"}, {"URL", "ID"}, {"FOO", "Bar"}})
 				case "title":
 					nc.StructNameFromTitle = true
+					// a title whose identifier equals a definition's: the root then competes with that definition for
+					// the name (listed findings K15 / K21), which is not "changing only the name"
+					if t, ok := root["title"].(string); ok {
+						tn := generator.VerifIdentifierize(nc.Caps, nil, t)
+						collides := false
+						for _, kw := range []string{"$defs", "definitions"} {
+							if defs, ok := root[kw].(sgen.M); ok {
+								for dn := range defs {
+									if generator.VerifIdentifierize(nc.Caps, nil, dn) == tn {
+										collides = true
+									}
+								}
+							}
+						}
+						if collides {
+							c.Count("c16", "title-names-a-definition (K15/K21 region, skipped)")
+							continue
+						}
+					}
 				case "root-type":
 					nc.RootType = "CustomRoot"
 				}
